@@ -1233,31 +1233,216 @@ def _strip_jit(v):
     return v
 
 
+_DERIVATIVE_OF = ("grad", "value_and_grad", "jacfwd", "jacrev", "jacobian", "hessian")
+
+
+def evaluations_at(X, st, v, xkeys, node, budget=4000):
+    """Parameter flow of a computed value.  Returns (leaves, blocked): `leaves` are the evaluations (callee, arguments, keyword arguments,
+    inside a jit-compiled function?) of
+    functions this analysis cannot look into (functions handed to the constructor, members of such objects) that take place at the
+    call-time point -- a value in which one of `xkeys` occurs -- while `v` is computed; `blocked` lists repository code on the way that
+    could not be interpreted.  Seen through: jit wrappers, closures / partial applications / repository functions (stored on the object
+    or built by helper factories), the derivative transforms (d F at (x, p, ...) evaluates F at (x, p, ...); jvp / vjp / linearize of G
+    at the primals evaluate G at the primals) and library functions of their arguments."""
+    from .C01_symx import Decider, Partial, BoundMethod, ClassRef, DictV
+    leaves, blocked, memo = [], [], set()
+    left = [budget]
+    jit_depth = [0]
+
+    def at_point(args):
+        return any(not isinstance(a, (str, bool, type(None))) and X.occurs(k, a) for a in args for k in xkeys)
+
+    def apply(f, args, kwargs, origin):
+        """the value of f(*args, **kwargs) with f a callable value"""
+        g = _strip_jit(f)
+        jit_depth[0] += g is not f
+        try:
+            apply_plain(g, args, kwargs, origin)
+        finally:
+            jit_depth[0] -= g is not f
+
+    def apply_plain(f, args, kwargs, origin):
+        if isinstance(f, (Closure, Partial, FuncRef)):
+            try:
+                r = X.call(f, list(args), list(kwargs), st, Decider([], []), node)
+            except (Unsupported, Budget) as e:
+                blocked.append(f"{short(f, 40)}: {e}")
+                return
+            if isinstance(r, Opq) and r.kind == "call" and isinstance(r.parts[0], (Closure, Partial, FuncRef)):
+                # not inlined (contains a loop, other module, ...): an evaluation this analysis did not follow
+                if at_point(list(r.parts[1]) + [x for _, x in r.parts[2]]):
+                    blocked.append(f"{short(r.parts[0], 40)} is not interpreted")
+                for a in list(r.parts[1]) + [x for _, x in r.parts[2]]:
+                    walk(a)
+                return
+            walk(r)
+            return
+        if isinstance(f, Opq) and f.kind == "call" and isinstance(f.parts[0], Ext) and f.parts[0].name.split(".")[-1] in _DERIVATIVE_OF and f.parts[1]:
+            apply(f.parts[1][0], args, kwargs, origin)
+            return
+        if isinstance(f, Opq) and f.kind == "call" and isinstance(f.parts[0], Ext) and f.parts[0].name == "functools.partial" and f.parts[1]:
+            apply(f.parts[1][0], list(f.parts[1][1:]) + list(args), list(f.parts[2]) + list(kwargs), origin)
+            return
+        if isinstance(f, Ext):
+            for a in list(args) + [x for _, x in kwargs]:
+                walk(a)
+            return
+        if isinstance(f, (Opq, Num, BoundMethod)):
+            allargs = list(args) + [x for _, x in kwargs]
+            if at_point(allargs):
+                leaves.append((f, list(args), list(kwargs), jit_depth[0] > 0))
+            for a in allargs:
+                walk(a)
+            if isinstance(f, (Opq, Num)):
+                walk(f)
+            return
+        blocked.append(f"`{short(f, 40)}` is called; not a function value this analysis knows")
+
+    def walk(w):
+        if isinstance(w, (str, bool, type(None), Closure, FuncRef, Ext, NTType, BoundMethod, Partial, ClassRef)):
+            return
+        left[0] -= 1
+        if left[0] < 0:
+            if not blocked or blocked[-1] != "value too large":
+                blocked.append("value too large")
+            return
+        if isinstance(w, DictV):
+            for x in w.items.values():
+                walk(x)
+            return
+        kw = (key(w), jit_depth[0] > 0)
+        if kw in memo:
+            return
+        memo.add(kw)
+        if isinstance(w, tuple):
+            for x in w:
+                walk(x)
+        elif isinstance(w, Num):
+            for a in w.p.atoms():
+                if a in X.atoms:
+                    walk(X.atoms[a])
+        elif isinstance(w, Cmp):
+            walk(w.a)
+            walk(w.b)
+        elif isinstance(w, Rec):
+            for x in w.vals.values():
+                walk(x)
+            if w.base is not None:
+                walk(w.base)
+        elif isinstance(w, Opq):
+            if w.kind == "call":
+                f, args, kwargs, _ = w.parts
+                g = _strip_jit(f)
+                if isinstance(g, Ext):
+                    last = g.name.split(".")[-1]
+                    if last == "jvp" and len(args) >= 2 and isinstance(args[1], tuple):
+                        apply(args[0], list(args[1]), [], w)
+                        for a in args[2:]:
+                            walk(a)
+                        return
+                    if last in ("vjp", "linearize") and len(args) >= 2:
+                        apply(args[0], list(args[1:]), [], w)
+                        return
+                apply(f, args, kwargs, w)
+            elif w.kind == "attr":
+                walk(w.parts[0])
+            elif w.kind in ("item", "quot"):
+                walk(w.parts[0])
+                walk(w.parts[1])
+            elif w.kind == "op":
+                for x in w.parts[1:]:
+                    if isinstance(x, (Num, Opq, Cmp, Rec, tuple)):
+                        walk(x)
+            elif w.kind == "sym" and w.parts and isinstance(w.parts[0], (Rec, tuple, DictV)):
+                walk(w.parts[0])
+    walk(v)
+    return leaves, blocked
+
+
+def objective_classes(ctx, base):
+    """the classes of the base's module that implement the objective interface by inheriting from `base` (the objects handed to the same solver)"""
+    out = []
+
+    def rec(sc):
+        for ch in sc.children:
+            if ch.kind == "class":
+                try:
+                    mro = list(ctx.repo.class_mro(ch))
+                except Exception:
+                    mro = [ch]
+                if ch is not base and base in mro:
+                    out.append(ch)
+            rec(ch)
+    for m_ in ctx.repo.modules.values():
+        rec(m_.scope)
+    return out
+
+
 def d1_objective_methods(ctx, cls_qual="optimism.Objective:Objective"):
-    """`value` / `gradient` / `hessian_vec`, executed on an object as the constructor leaves it but with `self.p` replaced afterwards,
-    evaluate stored functions at (x, <the replaced p>, ...); the stored functions are f and d f / d x.  Indirections (helper methods,
-    closures stored on the object, temporaries) are followed; a closure that froze the constructor's parameters is found out."""
+    """For the objective class and for every class derived from it: `value` / `gradient` / `hessian_vec`, executed on an object as the
+    constructor (the whole chain, super().__init__ included) leaves it but with `self.p` replaced afterwards,
+    evaluate stored functions at (x, <the replaced p>, ...); the stored functions are F and d F / d x of one F; and every evaluation at the
+    call-time point of a function the constructor was given (what F wraps) receives the replaced p -- not the parameters the constructor
+    stored.  Indirections (helper methods, closures stored on the object, partial applications, temporaries) are followed."""
+    base = ctx.need(cls_qual)
+    _objective_class(ctx, base, base)
+    for sub in objective_classes(ctx, base):
+        ctx.guard(_objective_class, ctx, sub, base)
+
+
+def _within_classes(sc, classes):
+    """is the function a method of one of the classes, or nested in one"""
+    while sc is not None and sc.kind != "module":
+        if sc.kind == "class":
+            return sc in classes
+        sc = sc.parent
+    return False
+
+
+def _objective_class(ctx, cls, base):
     from .C01_symx import Decider
     rule = "D1/T5-objective-uses-current-parameters"
-    ctx.need(cls_qual)
-    init = ctx.need(f"{cls_qual}.__init__")
+    cname = cls.name
+    is_base = cls is base
+    probe = SymX(ctx.repo, next(ch for ch in base.children if ch.kind == "function"))
+    init = probe.member_of(cls, "__init__")
+    if init is None:
+        raise Incomplete(f"{cname} has no constructor in the source tree")
+    ctx.touch(init)
     ips = init.params()
     if len(ips) < 2:
-        raise Incomplete("Objective.__init__ has no function parameter")
-    X = SymX(ctx.repo, init, max_steps=60000)
+        raise Incomplete(f"{cname}.__init__ has no function parameter")
+    try:
+        mro = list(ctx.repo.class_mro(cls))
+    except Exception:
+        mro = [cls]
+    # methods of the base classes are interpreted also when they live in another module
+    X = SymX(ctx.repo, init, max_steps=60000, inline_other=lambda sc_: _within_classes(sc_, mro))
+    X.cls = cls               # members are resolved on the class that is instantiated, also inside inherited constructors
+    X.unique_frames = True    # the closures the constructor builds on different paths / the stored functions build per call are kept apart
     ends = [r for r in X.analyse() if r.kind == "return"]
     if not ends:
-        raise Incomplete("Objective.__init__ has no analysable path")
+        raise Incomplete(f"{cname}.__init__ has no analysable path")
     selfv = X.sym(ips[0])
     fkey = ips[1]
     pnow = X.sym("p_current")
-    stored = {}      # method -> set of keys of the stored function it evaluates (jit stripped)
+    ptrace = X.sym("p_when_traced")
+    load_p = ast.Attribute(value=ast.Name(id=ips[0], ctx=ast.Load()), attr="p", ctx=ast.Load())
+    stored = {}      # method -> values of the stored function it evaluates (jit stripped)
+    flows = {}       # method -> [(leaves, blocked, stale parameters)]
     for mname in ("value", "gradient", "hessian_vec"):
-        m = ctx.need(f"{cls_qual}.{mname}")
+        m = X.member_of(cls, mname)
+        if m is None:
+            raise Incomplete(f"{cname}.{mname} not found in the source tree")
+        ctx.touch(m)
         ps = m.params()
         verdict, shown, why = True, [], []
         for r in ends:
             st = r.st.copy()
+            try:
+                p_ctor = X.eval(load_p, st, st.root, Decider([], []), init.module)      # what the constructor left as the object's parameters
+            except (Unsupported, Budget):
+                p_ctor = None
             # objective.p = <new parameters>, through the property setter if the class has one
             tgt = ast.Attribute(value=ast.Name(id=ips[0], ctx=ast.Load()), attr="p", ctx=ast.Store())
             X.assign(tgt, pnow, st, st.root, Decider([], []), init.module, init.node)
@@ -1278,36 +1463,86 @@ def d1_objective_methods(ctx, cls_qual="optimism.Objective:Objective"):
                 if ok and key(cargs[1]) != pnow.key:
                     ok = False
                     why.append(f"the parameters it evaluates with are `{short(cargs[1])}`, not the current `self.p`")
-                stored.setdefault(mname, set()).add(key(_strip_jit(v.parts[0])))
-                stored.setdefault(mname + ":val", []).append(_strip_jit(v.parts[0]))
+                stored.setdefault(mname, []).append(_strip_jit(v.parts[0]))
             if not ok:
                 verdict = False
-        ctx.decide(rule, verdict, m, m.node, construct=f"Objective.{mname}", detail=f"evaluates {shown[0] if shown else '?'} with the current self.p",
-                   bad_detail=f"Objective.{mname}(x) evaluates `{'; '.join(dict.fromkeys(shown))}`, not a stored function at (x, self.p, ...): it would not follow the "
+                continue
+            # the arguments of the stored function are fixed now; whatever is read from the object *while the stored function runs* is read
+            # when that function is traced if it is jit-compiled (and kept for later calls), at call time otherwise
+            X.assign(tgt, ptrace, st, st.root, Decider([], []), init.module, init.node)
+            leaves, blocked = evaluations_at(X, st, v, ["arg_" + ps[1]], m.node)
+            flows.setdefault(mname, []).append((leaves, blocked, p_ctor))
+        ctx.decide(rule, verdict, m, m.node, construct=f"{cname}.{mname}", detail=f"evaluates {shown[0] if shown else '?'} with the current self.p",
+                   bad_detail=f"{cname}.{mname}(x) evaluates `{'; '.join(dict.fromkeys(shown))}`, not a stored function at (x, self.p, ...): it would not follow the "
                               f"current parameters" + ("; " + "; ".join(dict.fromkeys(why)) if why else ""))
+    fvals = stored.get("value", [])
     for mname, what in (("value", "f"), ("gradient", "grad")):
-        vals = stored.get(mname + ":val", [])
+        vals = stored.get(mname, [])
         verdict = True if vals else None
-        for inner in vals:
+        for i, inner in enumerate(vals):
             if isinstance(inner, Opq) and inner.kind in ("attr", "item") and X.occurs(selfv.key, inner):
                 verdict = None if verdict is True else verdict     # an attribute this analysis did not see being assigned
                 continue
+            # the base class stores the function it was given; a derived class may store a function it built around it: then value and gradient must
+            # still be those of one function (what that function evaluates is the parameter-flow obligation below)
+            want = fkey if is_base else (key(fvals[i]) if i < len(fvals) else None)
             if what == "f":
-                ok = key(inner) == fkey
+                ok = key(inner) == want
             else:
                 ok = isinstance(inner, Opq) and inner.kind == "call" and isinstance(inner.parts[0], Ext) and inner.parts[0].name.split(".")[-1] == "grad"
                 if ok:
                     args, kwargs = inner.parts[1], dict(inner.parts[2])
-                    ok = len(args) >= 1 and key(_strip_jit(args[0])) == fkey
+                    ok = len(args) >= 1 and want is not None and key(_strip_jit(args[0])) == want
                     an = args[1] if len(args) > 1 else kwargs.get("argnums")
                     ok = ok and (an is None or key(an) == "0")
             if not ok:
                 verdict = False
         shown = short(vals[0]) if vals else "?"
-        ctx.decide(rule, verdict, init, init.node, construct=f"Objective.{mname}:stored-function",
-                   detail=f"Objective.{mname} evaluates {shown}",
-                   bad_detail=f"Objective.{mname} evaluates `{shown}`; expected {'f' if what == 'f' else 'grad(f, 0)'} with f the function handed to the constructor "
-                              f"(value and gradient of the same function w.r.t. x)")
+        expect = ("f" if what == "f" else "grad(f, 0)") + " with f the function handed to the constructor" if is_base else \
+            ("the function the constructor stored" if what == "f" else f"grad(F, 0) with F = `{short(fvals[0], 50) if fvals else '?'}`, the function {cname}.value evaluates")
+        ctx.decide(rule, verdict, init, init.node, construct=f"{cname}.{mname}:stored-function",
+                   detail=f"{cname}.{mname} evaluates {shown}",
+                   bad_detail=f"{cname}.{mname} evaluates `{shown}`; expected {expect} (value and gradient of the same function w.r.t. x)")
+    # parameter flow: what the stored functions evaluate at the call-time point receives the current parameters
+    for mname in ("value", "gradient", "hessian_vec"):
+        fl = flows.get(mname)
+        if not fl:
+            continue        # already reported above
+        m = X.member_of(cls, mname)
+        verdict, why, shown = True, [], []
+        for leaves, blocked, p_ctor in fl:
+            stale = []
+            for f, args, kwargs, in_jit in leaves:
+                allargs = list(args) + [x for _, x in kwargs]
+                vals_ = [a for a in allargs if not isinstance(a, (str, bool, type(None)))]
+                if any(X.occurs(pnow.key, a) for a in vals_) or (not in_jit and any(X.occurs(ptrace.key, a) for a in vals_)):
+                    shown.append(f"{short(f, 40)}({', '.join(short(a, 40) for a in allargs)})".replace(ptrace.key, pnow.key))
+                    continue
+                if any(key(a) == ptrace.key for a in vals_):
+                    stale.append(f"`{short(f, 40)}` is evaluated at the call-time point with the object's parameters read inside a jit-compiled function: they are "
+                                 f"read when the function is traced and the trace is reused, so later `objective.p = p` assignments are not seen "
+                                 f"(the parameters must be an argument of the compiled function)")
+                    continue
+                if p_ctor is not None and not isinstance(p_ctor, (str, bool, type(None))) and \
+                        any(not isinstance(a, (str, bool, type(None))) and key(a) == key(p_ctor) for a in allargs):
+                    stale.append(f"`{short(f, 40)}` is evaluated at the call-time point with `{short(p_ctor, 40)}`, the parameters the constructor received and stored, "
+                                 f"not with the parameters passed at call time (the current self.p): after `objective.p = p` the solver still minimises, and tests "
+                                 f"convergence of, the objective under the old parameters")
+                else:
+                    verdict = None if verdict is True else verdict
+                    why.append(f"`{short(f, 40)}({', '.join(short(a, 30) for a in allargs)})` is evaluated at the call-time point without the current parameters")
+            if stale:
+                verdict = False
+                why = stale + why
+            elif blocked:
+                verdict = None if verdict is True else verdict
+                why.append("not interpreted: " + "; ".join(dict.fromkeys(blocked)))
+            elif not leaves:
+                verdict = None if verdict is True else verdict
+                why.append("no evaluation of a function given to the constructor at the call-time point was found")
+        ctx.decide(rule, verdict, init, m.node if is_base else init.node, construct=f"{cname}.{mname}:parameter-flow",
+                   detail=f"at the call-time point {cname}.{mname} evaluates {'; '.join(list(dict.fromkeys(shown))[:2])}: with the current self.p",
+                   bad_detail=f"{cname}.{mname}: " + "; ".join(list(dict.fromkeys(why))[:2]))
 
 
 # ------------------------------------------------------------------ D1/T6: step-type labels
